@@ -10,11 +10,11 @@ package replication
 
 import (
 	"context"
-	"fmt"
-	stdtime "time"
 	"encoding/json"
 	"errors"
+	"fmt"
 	"io"
+	stdtime "time"
 
 	logging "github.com/formancehq/go-libs/v5/pkg/observe/log"
 	"github.com/formancehq/go-libs/v5/pkg/storage/bun/paginate"
@@ -27,27 +27,28 @@ import (
 
 type c33Logger struct{}
 
-func (c33Logger) Tracef(string, ...any)                     {}
-func (c33Logger) Debugf(string, ...any)                     {}
-func (c33Logger) Infof(string, ...any)                      {}
-func (c33Logger) Errorf(string, ...any)                     {}
-func (c33Logger) Trace(...any)                              {}
-func (c33Logger) Debug(...any)                              {}
-func (c33Logger) Info(...any)                               {}
-func (c33Logger) Error(...any)                              {}
-func (l c33Logger) WithFields(map[string]any) logging.Logger { return l }
-func (l c33Logger) WithField(string, any) logging.Logger     { return l }
+func (c33Logger) Tracef(string, ...any)                        {}
+func (c33Logger) Debugf(string, ...any)                        {}
+func (c33Logger) Infof(string, ...any)                         {}
+func (c33Logger) Errorf(string, ...any)                        {}
+func (c33Logger) Trace(...any)                                 {}
+func (c33Logger) Debug(...any)                                 {}
+func (c33Logger) Info(...any)                                  {}
+func (c33Logger) Error(...any)                                 {}
+func (l c33Logger) WithFields(map[string]any) logging.Logger   { return l }
+func (l c33Logger) WithField(string, any) logging.Logger       { return l }
 func (l c33Logger) WithContext(context.Context) logging.Logger { return l }
-func (c33Logger) Writer() io.Writer                         { return io.Discard }
-func (c33Logger) Enabled(logging.Level) bool                { return false }
+func (c33Logger) Writer() io.Writer                            { return io.Discard }
+func (c33Logger) Enabled(logging.Level) bool                   { return false }
 
 // ---- the world: one ledger with n logs, one pipeline, one exporter
 
 type c33World struct {
-	n           uint64 // logs 1..n exist
-	pageSize    uint64
-	fetchFaults int
-	pushFaults  int
+	n            uint64 // logs 1..n exist
+	pageSize     uint64
+	fetchFaults  int
+	pushFaults   int
+	deadCtxCalls int // consecutive Accept calls made with an already cancelled context
 	// exporter side
 	acked    []uint64 // ids of the logs of every acknowledged batch, in order
 	lastAck  uint64
@@ -109,6 +110,18 @@ func (d *c33Driver) Start(context.Context) error { return nil }
 func (d *c33Driver) Stop(context.Context) error  { return nil }
 func (d *c33Driver) Accept(ctx context.Context, logs ...drivers.LogWithLedger) ([]error, error) {
 	w := d.w
+	// like the real drivers (http, clickhouse, elasticsearch, the batcher): a call made with a context that is already
+	// cancelled fails with the context's error
+	if err := ctx.Err(); err != nil {
+		// the pipeline's own context is never cancelled (manager.startPipeline detaches it, the harnesses pass a background
+		// context). One call with a dead context happens when a stop request overtakes the push goroutine (the run then
+		// ends); a second one in a row means the pipeline keeps retrying with a context it cancelled itself: no retry can
+		// ever succeed
+		w.deadCtxCalls++
+		verifAssert("C33:retries-reach-the-exporter-with-a-live-context", w.deadCtxCalls < 2)
+		return nil, err
+	}
+	w.deadCtxCalls = 0
 	if w.nativeFailFirst {
 		w.nativeFailFirst = false
 		close(w.failedOnce)
@@ -211,7 +224,7 @@ func (s c33Storage) ListExporters(context.Context) (*paginate.Cursor[ledger.Expo
 	panic("world: not used")
 }
 func (s c33Storage) CreateExporter(context.Context, ledger.Exporter) error { panic("world: not used") }
-func (s c33Storage) DeleteExporter(context.Context, string) error        { panic("world: not used") }
+func (s c33Storage) DeleteExporter(context.Context, string) error          { panic("world: not used") }
 func (s c33Storage) GetExporter(context.Context, string) (*ledger.Exporter, error) {
 	panic("world: not used")
 }
@@ -253,9 +266,9 @@ func c33Deliver(n, pageSize uint64, fetchFaults, pushFaults int) {
 	verifReach("end")
 }
 
-func Harness_C33_deliver_n3_ps2()              { c33Deliver(3, 2, 0, 0) }
-func Harness_C33_deliver_n3_ps2_pushfault()    { c33Deliver(3, 2, 0, 1) }
-func Harness_C33_deliver_n3_ps2_fetchfault()   { c33Deliver(3, 2, 1, 0) }
+func Harness_C33_deliver_n3_ps2()                { c33Deliver(3, 2, 0, 0) }
+func Harness_C33_deliver_n3_ps2_pushfault()      { c33Deliver(3, 2, 0, 1) }
+func Harness_C33_deliver_n3_ps2_fetchfault()     { c33Deliver(3, 2, 1, 0) }
 func Harness_C33_deliver_n4_ps2_two_pushfaults() { c33Deliver(4, 2, 0, 2) }
 
 // stop and start again at some point of the delivery: the pipeline resumes from what was persisted
